@@ -241,6 +241,36 @@ def unit_norm_sites(fi, prog=None, _depth=1):
     return out
 
 
+# ----------------------------------------------------------------------------- casts that drop the imaginary part
+REAL_DTYPES = {"float", "np.float64", "np.float32", "np.float_", "np.double", "numpy.float64", "numpy.float32", "np.float16", "np.longdouble", "int", "np.int64", "np.int32"}
+
+
+def _is_real_dtype(e):
+    if isinstance(e, ast.Constant) and isinstance(e.value, str):
+        return e.value.lower().lstrip("<>=").startswith(("float", "f4", "f8", "d", "int", "i4", "i8"))
+    return src(e) in REAL_DTYPES
+
+
+def real_casts(e):
+    """sub-expressions of e that turn a (possibly complex) array into a real one: dtype=float in a constructor / astype(float),
+    `.real`, np.real(..) - returns [(node, text)].  Magnitudes (abs) are values of their own, not casts, and are not listed."""
+    out = []
+    for n in ast.walk(e):
+        if isinstance(n, ast.Call):
+            for k in n.keywords:
+                if k.arg == "dtype" and _is_real_dtype(k.value):
+                    out.append((n, f"`{src(n, 50)}` (dtype={src(k.value)})"))
+            if isinstance(n.func, ast.Attribute) and n.func.attr == "astype" and n.args and _is_real_dtype(n.args[0]):
+                out.append((n, f"`{src(n, 50)}`"))
+            if isinstance(n.func, ast.Attribute) and n.func.attr in ("real", "real_if_close") and isinstance(n.func.value, ast.Name) and n.func.value.id in ("np", "numpy") and n.func.attr == "real":
+                out.append((n, f"`{src(n, 50)}`"))
+            if isinstance(n.func, ast.Name) and n.func.id == "float":
+                out.append((n, f"`{src(n, 50)}`"))
+        elif isinstance(n, ast.Attribute) and n.attr == "real" and not (isinstance(n.value, ast.Name) and n.value.id in ("np", "numpy")):
+            out.append((n, f"`{src(n, 50)}`"))
+    return out
+
+
 # ----------------------------------------------------------------------------- statements / blocks
 def walk_stmts(body, path=()):
     """yield (stmt, path) where path is a tuple of (container stmt, field) from the function body down"""
@@ -741,6 +771,11 @@ class _Fold(ast.NodeTransformer):
             node.slice.elts = [as_slice(x) for x in node.slice.elts]
         else:
             node.slice = as_slice(node.slice)
+        # {"a": x, "b": y}["a"] -> x
+        if isinstance(node.value, ast.Dict) and isinstance(node.slice, ast.Constant) and all(isinstance(k, ast.Constant) for k in node.value.keys):
+            for k, v in zip(node.value.keys, node.value.values):
+                if k.value == node.slice.value:
+                    return v
         if isinstance(node.value, (ast.Tuple, ast.List)) and isinstance(node.slice, ast.Constant) and isinstance(node.slice.value, int) \
                 and -len(node.value.elts) <= node.slice.value < len(node.value.elts) and not any(isinstance(e, ast.Starred) for e in node.value.elts):
             return node.value.elts[node.slice.value]
